@@ -208,6 +208,7 @@ def classify(desc, pid):
     if 'unwinding assertion' in desc or 'recursion unwinding' in desc: return 'unwind'
     if desc.startswith('BOUND'): return 'bound'
     if desc.startswith('MODEL') or 'unmodelled' in desc or 'no body for callee' in desc: return 'model'
+    if desc.startswith('dereferenced function pointer must be'): return 'model'      # an indirect call whose targets the harness does not model (virtual / control-block call): a modelling gap, not a verdict
     return 'violation'
 
 def _limits(mem_gb):
